@@ -138,7 +138,7 @@ def rle_sched(sched):
 def case_term(case):
     hist = lambda h: "[%s]" % "; ".join("(%d, %s)" % (t, op_term(o)) for t, o in h)
     progs = "[%s]" % "; ".join("[%s]" % "; ".join(op_term(o) for o in p) for p in case["progs"])
-    return "(run_case %s %d %s %s %s %s)" % (world_term(case["filters"]), case["n"], hist(case["pre"]), progs,
+    return "(run_caseN %s %d %s %s %s %s)" % (world_term(case["filters"]), case["n"], hist(case["pre"]), progs,
                                             rle_sched(case["sched"]), hist(case["post"]))
 
 
@@ -147,7 +147,7 @@ def case_term(case):
 
 def parse_impl(rc, out):
     r = {"rc": rc, "pre": [], "post": [], "yields": None, "sched_log": None, "finished": None, "max": None,
-         "hang": None, "panics": [], "hooks": None, "bad": None, "raw_tail": out[-400:]}
+         "hang": None, "deadlock": False, "panics": [], "hooks": None, "bad": None, "raw_tail": out[-400:]}
     for line in out.splitlines():
         if not line.startswith("{"):
             continue
@@ -166,6 +166,7 @@ def parse_impl(rc, out):
         elif k == "finished":
             r["finished"] = o["v"]
             r["max"] = o["max"]
+            r["deadlock"] = bool(o.get("deadlock"))
         elif k == "hang":
             r["hang"] = o
         elif k == "panic":
@@ -331,7 +332,7 @@ def check_quiescent(S, t, op, obs, max_before, viol, where, case):
                          {"where": where, "op": list(op), "max": mx, "needed": need, "case": case_text(case)}, None))
 
 
-def oracle_case(case, impl, finding_mid_install="F21"):
+def oracle_case(case, impl, finding_mid_install="F41"):
     """returns [(what, replay, finding)], nontrivial_flags(dict)"""
     viol = []
     flags = {}
@@ -339,6 +340,8 @@ def oracle_case(case, impl, finding_mid_install="F21"):
     if impl["hang"] is not None:
         viol.append(("a thread hung (no progress for 30 s): %s" % json.dumps(impl["hang"]), {"case": ct, "hang": impl["hang"]}, None))
         return viol, flags
+    if impl["deadlock"]:
+        viol.append(("deadlock: every unfinished thread is blocked on the dispatcher lock", {"case": ct, "yields": impl["yields"]}, None))
     for p in impl["panics"]:
         viol.append(("panic on thread %s: %s" % (p.get("t"), p.get("msg")), {"case": ct, "panic": p}, None))
     if impl["rc"] != 0 or impl["bad"]:
